@@ -11,7 +11,7 @@ import driver as D
 
 VERIF = D.VERIF
 EVID = os.environ.get('VERIF_EVIDENCE_DIR') or os.path.join(VERIF, 'evidence')
-VIOL = os.path.join(VERIF, 'build', 'violations')
+VIOL = os.path.join(D.BUILD, 'violations')
 REPLAY_BIN = os.path.join(VERIF, 'replay', 'target', 'debug', 'memterm-replay')
 
 
@@ -25,6 +25,44 @@ def units_for(prop):
         if re.search(r'\b%s\b' % prop, t) or prop == 'C01':
             us.append(os.path.basename(p)[:-5])
     return us
+
+
+def imports_for(prop, units):
+    """Functions whose contracts a unit deciding `prop` imports (assumes) from another unit: the property
+    rests on those contracts, so every obligation of those functions (and of the functions they call in
+    their own unit) is an obligation of the property too."""
+    sup = {}
+    for u in units:
+        t = open(os.path.join(D.CONTRACTS, u + '.spec')).read()
+        only = re.search(r'(?m)^@@ import-carries:\s*(.*)$', t)
+        if only and prop not in only.group(1).split():
+            continue
+        for m in re.finditer(r'(?m)^@import\s+(\S+)\.spec\s+(.*)$', t):
+            sup.setdefault(m.group(1), set()).update(m.group(2).split())
+    return sup
+
+
+def close_support(names, info):
+    todo, seen = list(names), set()
+    while todo:
+        f = todo.pop()
+        if f in seen or f not in info:
+            continue
+        seen.add(f)
+        for g in re.findall(r'\bself\s*\.\s*([a-z_0-9]+)\s*\(', __import__('rsscan').mask(info[f].get('text', ''))):
+            if g in info and g not in seen:
+                todo.append(g)
+    return seen
+
+
+def requires_wf(text, fn):
+    m = re.search(r'(?m)^//@FN< %s\n' % re.escape(fn), text)
+    if not m:
+        return False
+    e = text.find('/*@ENTRY:', m.end())
+    e2 = text.find('//@FN> ', m.end())
+    seg = text[m.end():min(x for x in (e, e2, len(text)) if x >= 0)]
+    return re.search(r'\bwf\(\*old\(self\)\)', seg) is not None
 
 
 def slug(s):
@@ -72,17 +110,22 @@ def verus_failures_on(repo_dir, prop, tier):
     D.REPO = repo_dir
     try:
         failing, undec = [], []
-        for unit in units_for(prop):
+        units = units_for(prop)
+        support = imports_for(prop, units)
+        units += [u for u in sorted(support) if u not in units]
+        for unit in units:
             res = D.run_unit(unit, tier)
             info = res['info']
+            roots = [f for f, fi in info.items() if prop in fi['props'] and prop not in fi.get('local', [])]
+            sup = close_support(list(support.get(unit, ())) + roots, info)
             for e in res['errors']:
                 ob = res['obligations'].get(e['obligation'])
                 f = info.get(e['fn']) if e['fn'] in info else None
                 props = D.props_of(ob, info) if ob else ((f['props'] if f else []) + ['C01'] + (['C09'] if e['obligation'].endswith('/callee_wf') else []))
-                if prop in props:
+                if prop in props or e['fn'] in sup:
                     failing.append(e['obligation'])
             for fn, fi in info.items():
-                if fi.get('degraded') and (prop in fi['props'] or prop == 'C01'):
+                if fi.get('degraded') and (prop in fi['props'] or prop == 'C01' or fn in sup):
                     undec.append(fn)
         return sorted(set(failing)), sorted(set(undec))
     finally:
@@ -130,6 +173,8 @@ def check_property(prop, tier, seed):
     os.makedirs(EVID, exist_ok=True)
     os.makedirs(VIOL, exist_ok=True)
     units = units_for(prop)
+    support = imports_for(prop, units)
+    units += [u for u in sorted(support) if u not in units]
     known, fixed = D.load_known()
     known_here = [k for k in known if k['property'] == prop]
     all_obl = []   # (id, status, detail)
@@ -151,6 +196,10 @@ def check_property(prop, tier, seed):
         cmds.append(res['cmd'])
         solver_ms += res['times'].get('smt', {}).get('smt-run', 0)
         info = res['info']
+        # modular proofs: a function's contract is proved against its callees' contracts, so the property of
+        # a function rests on every obligation of the functions it (transitively) calls in this unit
+        roots = [f for f, fi in info.items() if prop in fi['props'] and prop not in fi.get('local', [])]
+        sup = close_support(list(support.get(unit, ())) + roots, info)
         errs_by_ob = {}
         for e in res['errors']:
             errs_by_ob.setdefault(e['obligation'], []).append(e)
@@ -161,31 +210,47 @@ def check_property(prop, tier, seed):
                 pr = ob['props_override']
             else:
                 pr = D.props_of(ob, info)
-            if prop in pr and not (info.get(ob['fn']) or {}).get('extern'):
+            if (prop in pr or ob['fn'] in sup) and not (info.get(ob['fn']) or {}).get('extern'):
                 mine[oid] = ob
+        # "for every reachable state" is proved as "for every state satisfying the representation invariant":
+        # that rests on every operation of the unit re-establishing the invariant, so those clauses are
+        # obligations of every property whose functions require it
+        if any(requires_wf(res['text'], f) for f in set(roots) | sup):
+            for oid, ob in res['obligations'].items():
+                if ob.get('sec') == 'sig' and ob['label'] in ('wf', 'no_hidden_cells') and not (info.get(ob['fn']) or {}).get('extern'):
+                    mine.setdefault(oid, ob)
         for fn, fi in info.items():
             if fi['extern']:
                 continue
-            if fi.get('degraded') and (prop in fi['props'] or prop == 'C01' or any(o['fn'] == fn for o in mine.values())):
+            if fi.get('degraded') and (prop in fi['props'] or prop == 'C01' or fn in sup or any(o['fn'] == fn for o in mine.values())):
                 undecided.append('%s: %s' % (fn, fi['degraded']))
-            if prop in fi['props'] or prop == 'C01':
+            if prop in fi['props'] or prop == 'C01' or fn in sup:
                 mine['%s/safety' % fn] = dict(fn=fn, sec='body', label='safety', clauses=['no overflow/underflow, no reachable panic!/unwrap/expect failure, every callee precondition holds, indices in bounds'])
         # errors that map to an obligation nobody declared (unlabelled ghost text): attribute to the function
         for oid, es in errs_by_ob.items():
             if oid.endswith('/callee_wf'):
                 f = es[0]['fn']
-                if f in info and (prop == 'C09' or prop == 'C01' or prop in info[f]['props']):
+                if f in info and (prop == 'C09' or prop == 'C01' or prop in info[f]['props'] or f in sup):
                     mine[oid] = dict(fn=f, sec='body', label='callee_wf', clauses=['the representation invariant required by a callee holds at the call'])
                 continue
             if oid not in res['obligations'] and not oid.endswith('/safety'):
                 f = es[0]['fn']
-                if f in info and (prop in info[f]['props']):
+                if f in info and (prop in info[f]['props'] or f in sup):
                     mine[oid] = dict(fn=f, sec='?', label='unlabelled', clauses=[es[0]['where']])
+        # Verus assumes a failed invariant / assertion / callee precondition from that point on, so the
+        # postconditions of the same function are then proved from a false lemma: not decided
+        internal_fail = {}
+        for oid, es in errs_by_ob.items():
+            if '/sig#' not in oid and es[0].get('fn') in info:
+                internal_fail.setdefault(es[0]['fn'], []).append(oid)
         for oid, ob in sorted(mine.items()):
             fr = res['fres'].get(ob['fn'])
             es = errs_by_ob.get(oid, [])
             if (info.get(ob['fn']) or {}).get('degraded'):
                 status = 'UNDECIDED'
+            elif not es and ob.get('sec') == 'sig' and internal_fail.get(ob['fn']):
+                status = 'UNDECIDED'
+                undecided.append('%s: postconditions rest on failed %s' % (ob['fn'], ', '.join(sorted(internal_fail[ob['fn']])[:4])))
             elif es:
                 status = 'FAILED'
                 failing.append(dict(unit=unit, obligation=oid, errors=es, fn=ob['fn'], source=info.get(ob['fn'], {}).get('text', '')))
@@ -292,7 +357,7 @@ def check_property(prop, tier, seed):
     if violations:
         return 1
     if undecided:
-        print('UNDECIDED property=%s: function(s) outside the verifier\'s reach on this tree (contract assumed, obligations not decided): %s' % (prop, '; '.join(sorted(set(undecided)))))
+        print('UNDECIDED property=%s: obligations not decided on this tree (function outside the verifier\'s reach and its contract assumed, or proof resting on a failed obligation): %s' % (prop, '; '.join(sorted(set(undecided)))))
         return 2
     return 0
 
